@@ -113,6 +113,20 @@ def empty_leaf_tree():
     return campaign.corpus_spec()
 
 
+def enums_only_tree():
+    """A tree whose generated code needs next to nothing from the library (enums, an empty struct, a packet whose
+    only field is optional): whatever the public packages export, they must export it by themselves, not because a
+    generated module happens to import it."""
+    E = S.Enum
+    spec = S.parse({k: "<protocol>\n</protocol>\n" for k in ("", "map", "net", "net/client", "net/server", "pub", "pub/server")})
+    spec.files["net"].enums += [E("PacketFamily", "byte", [("Connection", 1, None), ("Init", 255, None)]), E("PacketAction", "byte", [("Request", 1, None), ("Init", 255, None)])]
+    spec.files[""].enums.append(E("Colour", "char", [("Red", 1, None), ("Green", 2, None)]))
+    spec.files["map"].enums.append(E("Terrain", "short", [("Grass", 0, None), ("Water", 7, None)]))
+    spec.files["pub"].structs.append(S.Struct("Nothing", []))
+    spec.files["net/client"].packets.append(S.Packet("Connection", "Request", [S.Field("note", "string", optional=True)]))
+    return spec
+
+
 class _Relabel:
     """Every violation on the case-collision tree is the known finding, whatever its symptom."""
 
@@ -128,7 +142,7 @@ class _Relabel:
 
 def shards(tier, seed):
     out = []
-    for ti in [-1, 2000, 3000, 3001, 3002] + list(range(TREES[tier])) + [1000 + k for k in range(N_COLLISION[tier])]:
+    for ti in [-1, 2000, 3000, 3001, 3002, 3003] + list(range(TREES[tier])) + [1000 + k for k in range(N_COLLISION[tier])]:
         for part in range(4):
             out.append({"tree": ti, "part": part, "parts": 4})
     return out
@@ -157,6 +171,9 @@ def run(shard, rec, tier, seed):
     elif ti == 3002:
         spec = empty_leaf_tree()
         rec.count("empty-leaf-trees")
+    elif ti == 3003:
+        spec = enums_only_tree()
+        rec.count("trees-that-need-nothing-from-the-library")
     elif ti == 2000:
         spec = cross_tree()
         rec.count("cross-reference-trees")
